@@ -295,6 +295,16 @@ func init() {
 		rcv.good[recvName(a[0], ts)] = a[2] == "0"
 		return "ok"
 	}
+	// recv.putother <inst> <ts>: a file of ANOTHER registered kind (not a snapshot) appears under
+	// the same database and instance; the receiver must never take it for a snapshot
+	implOps["recv.putother"] = func(a []string) string {
+		registerOtherKind()
+		name := otherKindFileName("db", a[0], int64(u64(a[1])))
+		if err := rcv.st.Interface.Store(context.Background(), name, validBlob(a[0], u64(a[1]))); err != nil {
+			return "err store"
+		}
+		return "ok"
+	}
 	implOps["recv.rm"] = func(a []string) string {
 		_ = rcv.st.Interface.Delete(context.Background(), recvName(a[0], u64(a[1])))
 		return "ok"
@@ -377,7 +387,7 @@ func init() {
 		newest := map[string]string{}
 		for _, n := range ls.Names() { // sorted: later names are newer
 			ni, err := snapshot.ParseName(n)
-			if err != nil || !rcv.good[n] {
+			if err != nil || !rcv.good[n] || ni.Kind != snapshot.KindSnapshot {
 				continue
 			}
 			newest[ni.InstanceID] = n
@@ -391,7 +401,7 @@ func init() {
 		}
 		fresh := map[string]string{}
 		for _, n := range ls.Names() {
-			if ni, err := snapshot.ParseName(n); err == nil && !corrupt[n] {
+			if ni, err := snapshot.ParseName(n); err == nil && !corrupt[n] && ni.Kind == snapshot.KindSnapshot {
 				fresh[ni.InstanceID] = n
 			}
 		}
